@@ -136,8 +136,8 @@ def history(rng, kind, nsteps, hostile):
     else:
         adj = systems.chain_adjacency(4) if rng.random() < 0.5 else systems.grid_adjacency(2, 2)
         tk = rng.choice(["uhf_cpmc", "ghf_cpmc"])
-        S = systems.make_hubbard(rng, adj, rng.choice([1.0, 4.0, 12.0]), rng.choice([(2, 2), (2, 1), (1, 1)]), tk, kind,
-                                 dt=dt, n_walkers=6, seed=seed)
+        S = systems.make_hubbard(rng, adj, hostile.get("u", rng.choice([1.0, 4.0, 12.0])), rng.choice([(2, 2), (2, 1), (1, 1)]), tk, kind,
+                                 dt=dt, n_walkers=6, seed=seed, **({"u1": hostile["u1"]} if "u1" in hostile else {}))
         nf = 4
         window = False
     prop, trial, hd, wd = S["prop"], S["trial"], S["ham_data"], S["wave_data"]
@@ -216,6 +216,16 @@ def run(ctx):
                 fails, n, st = [("history runs", {"propagator": kind, "error": repr(ex)[:300]})], 0, {}
             total_steps += n
             hist_stats.setdefault(kind, []).append({"steps": n, **st})
+            for c, d in fails:
+                spec_fail.append((kind, c, d))
+        if kind.startswith("cpmc"):
+            # a hopeless time step at strong coupling: the whole population dies, and must then stay dead (weight 0, not NaN)
+            try:
+                fails, n, st = history(rng, kind, 12, {"dts": [0.4], "extreme": False, "u": 12.0, "u1": 3.0})
+            except Exception as ex:
+                fails, n, st = [("history runs", {"propagator": kind, "error": repr(ex)[:300]})], 0, {}
+            total_steps += n
+            hist_stats.setdefault(kind, []).append({"steps": n, "collapse_history": True, **st})
             for c, d in fails:
                 spec_fail.append((kind, c, d))
     # (c) killed fraction through the sampler
